@@ -14,3 +14,4 @@ OBLIGATIONS = OBLIGATIONS + [K.ARG_NAMES]
 OBLIGATIONS = OBLIGATIONS + [K.INTERSECT_TOOL]
 # one run per chromosome (D22): a re-appearing chromosome must be refused, else sections are out of chromosome order
 OBLIGATIONS = OBLIGATIONS + [K.IDMAP]
+OBLIGATIONS = OBLIGATIONS + [K.NODE_COUNTS]
